@@ -23,6 +23,7 @@ def shards(tier, seed):
         out.append({"kind": "range", "lo": lo, "hi": hi})
     out.append({"kind": "edges", "tier": tier, "seed": seed})
     out.append({"kind": "threads", "tier": tier, "seed": seed})
+    out.append({"kind": "route", "tier": tier, "seed": seed})
     return out
 
 
@@ -106,7 +107,36 @@ def run_range(lo, hi, f):
     return viol, total, n, nonzero, values
 
 
+def route_shard(spec):
+    """the reward bound on the routes by which a running node takes blocks: rewards above subsidy + fees (by one unit, by the whole
+    subsidy, split over outputs ...) in the download-route stories of skv/props/c09.py -- announced, unrequested, before
+    their parent, while a request of the node is open"""
+    from skv import cstream
+    from skv.props import c09
+    env.boot()
+    rng = random.Random(spec["seed"] * 1000 + 162)
+    classes = {k: v for k, v in cstream.C02_CLASSES.items() if k.startswith("reward")}
+    mon = c09.route_histories(rng, 6 if spec["tier"] == "quick" else 60, 14, classes, "c16r")
+    viol = [_viol("node-route:" + v["key"], v["msg"], v["witness"]) for v in mon.viol[:6]]
+    return {"evaluations": mon.c.get("deliveries", 0), "distinct": mon.c.get("download_route_stories", 0), "violations": viol,
+            "counters": {"route_lane_deliveries": mon.c.get("deliveries", 0), "route_lane_stories": mon.c.get("download_route_stories", 0)}}
+
+
+
+def _replay_route_story(spec):
+    from skv.props import c09
+    env.boot()
+    mon = c09.route_histories(random.Random(1), 8, 14, c09.all_classes(), "replay-route", story_share=0.8)
+    return {"evaluations": mon.c.get("deliveries", 0), "distinct": mon.c.get("download_route_stories", 0),
+            "violations": [{"key": "node-route:" + v["key"], "msg": v["msg"], "witness": v["witness"]} for v in mon.viol[:6]],
+            "counters": {"route_lane_stories": mon.c.get("download_route_stories", 0)}, "digests": []}
+
 def run_shard(spec):
+    if "replay" in spec and isinstance(spec["replay"], dict) and spec["replay"].get("kind") == "download-route-story":
+        # (the story is re-run with this check's classes on the current tree; the recorded chain is for the reader)
+        return _replay_route_story(spec)
+    if spec.get("kind") == "route":
+        return route_shard(spec)
     consensus = env.boot(fake_scrypt=False, horizon_off=False)
     f = consensus.get_block_subsidy
     if "replay" in spec:
@@ -356,6 +386,7 @@ def finalize(m, tier):
                    ("nonzero_heights", c.get("nonzero_heights", 0), NONZERO_HEIGHTS),
                    ("reward_checks_at_probe_heights", c.get("reward_checks_at_probe_heights", 0), 2000),
                    ("transaction_limit_cases", c.get("transaction_limit_cases", 0), 100),
-                   ("two_thread_trials", c.get("two_thread_trials", 0), 200)],
+                   ("two_thread_trials", c.get("two_thread_trials", 0), 200),
+                   ("route_lane_stories", c.get("route_lane_stories", 0), 30)],
         "extra": {"sum_of_subsidies_observed": total},
     }
